@@ -5,6 +5,7 @@
 import NPModel.Refine.Validate
 import NPModel.Refine.Fields
 import NPModel.Refine.Samples
+import NPModel.Refine.SetItemRect
 namespace NP.C01
 open NP
 variable {α : Type}
@@ -81,5 +82,23 @@ example : Samples.c1.WF = true ∧ (∀ s ∈ Samples.c1.chunks, s.nullEmpty = t
 /-- and a ragged chunk is indeed refused by the modelled validator -/
 example : (PStruct.validate { Samples.s1 with kids := [Samples.fa, { Samples.fb with list := { offs := [0, 1, 1, 3], valid := [true, true, true], vals := [7, 8, 6] } }] }) = .error .valueError := by
   decide
+
+/-- **Element assignment never stores a ragged row** — for every column in any layout, every
+    key of any kind (repeated targets included) and every value (a row or an array of rows, ragged
+    or not): what `__setitem__` returns is the unchanged column or has passed the validator on
+    freshly built storage, so its rows are rectangular whenever the column's were. -/
+theorem setitem_never_stores_ragged (c c' : PCol α) (k : Key) (v : SetVal α) (h : NArr.setItem c k v = .ok c')
+    (hr : rectRows c.rows = true) : rectRows c'.rows = true :=
+  setItem_rect c c' k v h hr
+
+/-- … and a ragged value that would be used is refused (ValueError) with nothing returned:
+    statement for a boolean-mask key with one target. -/
+example : (NArr.setItem Samples.c1 (.mask [true, false, false, false])
+    (.scalar (some [("a", [1, 2]), ("b", [3])]))).toBool = false := by decide
+
+/-- On canonical (freshly built) storage the validator accepts EXACTLY the aligned chunks: it is
+    complete as well as sound there. -/
+theorem validator_exact_on_fresh_storage (s : PStruct α) (hc : s.canonical) : s.validate = .ok () ↔ s.aligned :=
+  PStruct.canonical_validate_iff s hc
 
 end NP.C01
